@@ -61,6 +61,17 @@ def build_runs(tier, seed):
     for k, bad in enumerate(['$ CREATE TABEL X (Id INTEGER);', "INSERT INTO X VALUES (1, 'abc", '\ufeffCREATE TABLE (;',
                              '# CREATE ROP REF_ID R1 FROM 2 A (X) TO 1 B (Y);', '@' * 12 + ' INSERT INTO', '\x00 CREATE', '"unterminated CREATE TABLE']):
         runs.append({'kind': 'noise', 'texts': [tail(100 + k), bad, tail(200 + k), bad, bad, tail(300 + k)], 'build_every': 1})
+    # statements with empty lists (no attributes, no values, no key attributes) held by the loader while every single-edit
+    # mutant of statements with non-empty lists is fed (a list that starts with a comma among them)
+    empty = ['CREATE TABLE E ();\nINSERT INTO E VALUES ();\n',
+             'CREATE TABLE E ();\nCREATE TABLE F (Id INTEGER, Nm STRING);\nCREATE ROP REF_ID R9 FROM 1C E () TO 1C F ();\n'
+             'CREATE UNIQUE INDEX I1 ON E ();\nINSERT INTO E VALUES ();\n']
+    full = "INSERT INTO G VALUES (1, 'x');\nCREATE TABLE G (A INTEGER, B STRING);\nCREATE UNIQUE INDEX I1 ON G (A, B);\n" \
+           "CREATE ROP REF_ID R8 FROM MC G (A, B) TO 1 G (A, B);\n"
+    for k, e in enumerate(empty):
+        ms = sqltok.mutants(full, rnd, None if tier != 'quick' else 50)
+        for j in range(0, len(ms), 5):
+            runs.append({'kind': 'mutant:emptylists', 'texts': [e] + [m for _, m in ms[j:j + 5]] + [full, tail(400 + k)], 'build_every': 3})
     # adversarial sizes for the time bound
     runs.append({'kind': 'long', 'texts': ["INSERT INTO X VALUES ('" + "a''" * 20000 + "');", '-- ' + 'x' * 100000,
                                            "'" + 'b' * 50000, '"' + 'c' * 50000, '(' * 3000, '1' * 5000 + '.'],
@@ -79,7 +90,7 @@ def check(tier, replay_path=None):
     rep = evidence.Report(PID)
     seed = common.seed()
     d = tlc.prepare_dir(['LoadIO', 'MC_LoadIO'], {'mc.cfg': 'CONSTANTS\n  MaxStmts = 6\nSPECIFICATION Spec\n'
-                                                   'PROPERTY RejectedInputIsStutter\nPROPERTY BuildIsPure\nCHECK_DEADLOCK FALSE\n'})
+                                                   'PROPERTY RejectedInputIsStutter\nPROPERTY BuildIsPure\nPROPERTY AppendOnly\nINVARIANT CountOK\nCHECK_DEADLOCK FALSE\n'})
     mc = tlc.check_model(d, 'MC_LoadIO', 'mc.cfg', must_cover=('MCAccept', 'RejectInput', 'Build'))
     if replay_path:
         obj = common.read_json(replay_path)
